@@ -339,6 +339,10 @@ def _impl_one(case):
 def _worker(H, cases, idxs, q):
     global _H
     _H = H
+    # the forked heap holds every case of the run: keep it out of the collections the harnesses force after each case
+    # (gc.collect() is linear in the tracked heap, which made the thorough tiers quadratic)
+    import gc
+    gc.freeze()
     for i in idxs:
         q.put((i, _impl_one(cases[i])))
     q.put(None)
